@@ -17,6 +17,8 @@ CONSTANTS
   AllowProgress = FALSE
   PreFF = {FALSE, TRUE}
   Coded = {}
+  SubErrs = {}
+  DetIds = {"fresh"}
 CONSTRAINT ExportC
 INVARIANT Verdict
 INVARIANT TagsScoped
